@@ -1,6 +1,166 @@
-/- stub: property C17 has no model driver yet -/
-namespace ActixModel.Drv.C17
+import ActixModel.Util
+import ActixModel.Model.ClientDecode
+import ActixModel.Model.Client
+import ActixModel.Model.Pool
+/-
+Line-protocol driver for C17 (grammar: see `harness/src/props/c17.rs`).
 
-def run (_line : String) : String := "unimplemented"
+One case = a request program against scripted servers. The driver plays the environment the
+harness builds around the real client: one logical clock tick per operation (per wave inside a
+concurrent batch), servers that write exactly the script's segments, leftover bytes (`/`) that
+reach the socket only after the client is done with the exchange, `.c` = FIN after the last byte.
+-/
+namespace ActixModel.Drv.C17
+open ActixModel.Util ActixModel.ClientDecode ActixModel.Client ActixModel.Pool
+
+structure Script where
+  pre : List Bytes
+  post : List Bytes
+  close : Bool
+
+inductive Op where
+  | req (auth : Nat) (o : ReqOpts) (mode : Mode) (s : Script)
+  | par (auths : List Nat)
+  | bad
+
+def parseSegs (s : String) : Option (List Bytes) :=
+  if s == "-" || s == "" then some []
+  else (s.splitOn "|").mapM bytesOfHex
+
+def parseScript (s : String) : Option Script :=
+  match s.splitOn "." with
+  | [body, flag] =>
+    let close? : Option Bool := if flag == "c" then some true else if flag == "k" then some false else none
+    match close? with
+    | none => none
+    | some close =>
+      match body.splitOn "/" with
+      | [p] => (parseSegs p).map fun pre => ⟨pre, [], close⟩
+      | [p, q] =>
+        match parseSegs p, parseSegs q with
+        | some pre, some post => some ⟨pre, post, close⟩
+        | _, _ => none
+      | _ => none
+  | _ => none
+
+def parseAuth (c : Char) : Option Nat :=
+  if c == 'a' then some 0 else if c == 'b' then some 1 else none
+
+def parseOp (tok : String) : Op :=
+  match tok.splitOn ":" with
+  | ["r", a, m, mode, script] =>
+    let auth? := match a.toList with
+      | [c] => parseAuth c
+      | _ => none
+    let opts? : Option ReqOpts :=
+      if m == "g" then some ⟨false, false⟩ else if m == "h" then some ⟨true, false⟩
+      else if m == "c" then some ⟨false, true⟩ else none
+    let mode? : Option Mode :=
+      if mode == "f" then some .full
+      else if mode.startsWith "p" then ((mode.drop 1).toString.toNat?).map Mode.part
+      else none
+    match auth?, opts?, mode?, parseScript script with
+    | some auth, some o, some md, some s => .req auth o md s
+    | _, _, _, _ => .bad
+  | ["par", auths] =>
+    let cs := auths.toList
+    if cs.isEmpty || cs.length > 12 then .bad
+    else match cs.mapM parseAuth with
+      | some v => .par v
+      | none => .bad
+  | _ => .bad
+
+structure Case where
+  limit : Nat := 2
+  ka0 : Bool := false
+  life0 : Bool := false
+  ops : List Op := []
+
+def parseCase (line : String) : Case :=
+  (words line).foldl (fun c tok =>
+    if tok.startsWith "lim=" then
+      match (tok.drop 4).toString.toNat? with
+      | some n => if n ≤ 64 then { c with limit := n } else { c with ops := c.ops ++ [.bad] }
+      | none => { c with ops := c.ops ++ [.bad] }
+    else if tok == "ka=0" then { c with ka0 := true }
+    else if tok == "life=0" then { c with life0 := true }
+    else { c with ops := c.ops ++ [parseOp tok] }) {}
+
+def showHex (bs : Bytes) : String := if bs.isEmpty then "-" else hexOfBytes bs
+
+def showOutcome : Outcome → String
+  | .body s b => "S" ++ toString s ++ ",B" ++ showHex b
+  | .bodyErr s e => "S" ++ toString s ++ ",E" ++ (match e with
+      | .incomplete => "inc" | .io => "io" | .timeout => "timeout")
+  | .dropped s => "S" ++ toString s ++ ",D"
+  | .sendErr e => "X" ++ (match e with
+      | .disconnected => "disc" | .parseIo => "pio" | .parseHeader => "phdr"
+      | .parseTooLarge => "ptoolarge" | .parseOther => "pother" | .timeout => "timeout")
+
+structure World where
+  pool : Pool := Pool.empty
+  now : Nat := 0
+  maxOpen : Nat := 0
+  maxInflight : Nat := 0
+  out : List String := []
+
+def World.see (w : World) (inflight : Nat) : World :=
+  { w with maxOpen := max w.maxOpen (openCount w.pool), maxInflight := max w.maxInflight inflight }
+
+def flatten (segs : List Bytes) : Bytes := segs.foldr (· ++ ·) []
+
+def stepReq (cfg : Cfg) (w : World) (auth : Nat) (o : ReqOpts) (mode : Mode) (s : Script) : World :=
+  let now := w.now + 1
+  let (pool, c, reused) := acquire cfg now auth w.pool
+  let w := ({ w with pool := pool, now := now }).see 1
+  let i := w.pool.leases.length - 1
+  let ex := exchange o mode (s.pre ++ s.post) s.close
+  let pool :=
+    if ex.released then
+      -- io back in the pool; whatever the server still wrote (and its FIN) is in the socket
+      let p := release now i true w.pool
+      touchConn c.id (fun c => { c with sock := flatten ex.unread, peerClosed := s.close }) p
+    else w.pool
+  let pool := dropLease i pool
+  let w := ({ w with pool := pool }).see 0
+  let tok := (if reused then "u" else "n") ++ showOutcome ex.outcome ++ ";o=" ++ toString (openCount pool)
+  { w with out := w.out ++ [tok] }
+
+/-- one wave of a concurrent batch: every member gets its permit and connection, all are in
+flight together, all complete (canned complete keep-alive responses) -/
+def stepWave (cfg : Cfg) (w : World) (auths : List Nat) : World × Nat × Nat :=
+  let now := w.now + 1
+  let (pool, nNew, nReused) := auths.foldl (fun (acc : Pool × Nat × Nat) a =>
+    let (p, _, reused) := acquire cfg now a acc.1
+    (p, if reused then acc.2.1 else acc.2.1 + 1, if reused then acc.2.2 + 1 else acc.2.2)) (w.pool, 0, 0)
+  let w := ({ w with pool := pool, now := now }).see auths.length
+  let pool := (List.range auths.length).foldl (fun p i => release now i true p) w.pool
+  let pool := { pool with leases := [] }
+  (({ w with pool := pool }).see 0, nNew, nReused)
+
+def chunksOf (n : Nat) : Nat → List Nat → List (List Nat)
+  | 0, _ => []
+  | _ + 1, [] => []
+  | fuel + 1, xs => xs.take n :: chunksOf n fuel (xs.drop n)
+
+def stepPar (cfg : Cfg) (w : World) (auths : List Nat) : World :=
+  let l := if cfg.limit = 0 then 1 else cfg.limit
+  let waves := chunksOf l auths.length auths
+  let (w, nNew, nReused) := waves.foldl (fun (acc : World × Nat × Nat) wave =>
+    let (w', a, b) := stepWave cfg acc.1 wave
+    (w', acc.2.1 + a, acc.2.2 + b)) (w, 0, 0)
+  let tok := "P" ++ toString nNew ++ "," ++ toString nReused ++ "," ++ toString auths.length ++
+    ";o=" ++ toString (openCount w.pool)
+  { w with out := w.out ++ [tok] }
+
+def run (line : String) : String :=
+  let c := parseCase line
+  let cfg : Cfg := ⟨effectiveLimit c.limit, if c.ka0 then 0 else 15000, if c.life0 then 0 else 75000⟩
+  let w := c.ops.foldl (fun (w : World) op =>
+    match op with
+    | .bad => { w with out := w.out ++ ["bad-op"] }
+    | .req a o m s => stepReq cfg w a o m s
+    | .par auths => stepPar cfg w auths) {}
+  joinWith " " (w.out ++ ["mo=" ++ toString w.maxOpen ++ ",mi=" ++ toString w.maxInflight])
 
 end ActixModel.Drv.C17
